@@ -9,11 +9,11 @@ Ltac Zify.zify_post_hook ::= Z.div_mod_to_equations.
 
 (* the size of the parsed archive: the data plus the c-string pool the format appends to it (padded to 4) *)
 Theorem round_trip_size kf m a f a' :
-  wf_archive a -> fits32 a -> serialize_k kf m a = Ok f -> from_bytes (a_endian a) f = Ok a' ->
+  wf_archive a -> serialize_k kf m a = Ok f -> from_bytes (a_endian a) f = Ok a' ->
   size a' = size a + lenN (pool_bytes a) /\ lenN (pool_bytes a) mod 4 = 0 /\ (a_cstrs a = [] -> size a' = size a).
 Proof.
-  intros WF FIT Es Ep. destruct (round_trip kf m a WF FIT) as (f0 & a0 & Es0 & _ & Ep0 & _ & _ & H1 & H2 & H3 & _).
-  rewrite Es in Es0. inversion Es0; subst f0. rewrite Ep in Ep0. inversion Ep0; subst a0. auto.
+  intros WF Es Ep. destruct (round_trip_ok kf m a f WF Es) as (a0 & _ & Ep0 & _ & _ & H1 & H2 & H3 & _).
+  rewrite Ep in Ep0. inversion Ep0; subst a0. auto.
 Qed.
 
 (* the literal reading fails as soon as a c-string is pending: ex_archive (14 data bytes, c-string "cs" pending at cell 4)
